@@ -92,6 +92,14 @@ Shapes(k, st) ==
                Slot(A1, k, "a~0b", Conc("P", <<>>)),
                Slot(Root, k, "V", RefC(R(Root, A1, k, "a/b", st))), Slot(Root, k, "W", RefC(R(Root, A1, k, "a~b", st))),
                Slot(Root, k, "Y", RefC(R(Root, A1, k, "a~0b", st)))>>, R(Root, A1, k, "a~1b", st), k)],
+    \* the same-document flavour, with names that need percent-encoding in a URI fragment (a space; a literal "%20")
+    [shape |-> "escaped_local",
+     u |-> U(<<Slot(Root, k, "a b", Conc("SP", <<>>)), Slot(Root, k, "a%20b", Conc("PC", <<>>)), Slot(Root, k, "a/b", Conc("SL", <<>>)),
+               Slot(Root, k, "V", RefC(R(Root, Root, k, "a b", st))), Slot(Root, k, "W", RefC(R(Root, Root, k, "a%20b", st)))>>,
+             R(Root, Root, k, "a/b", st), k)],
+    [shape |-> "escaped_pct",      \* ... and in an external document
+     u |-> U(<<Slot(A1, k, "a b", Conc("SP", <<>>)), Slot(A1, k, "a%20b", Conc("PC", <<>>)),
+               Slot(Root, k, "V", RefC(R(Root, A1, k, "a%20b", st)))>>, R(Root, A1, k, "a b", st), k)],
     [shape |-> "escaped_missing",   \* only the "/" sibling exists: the reference to the literal "~1" name designates nothing
      u |-> U(<<Slot(A1, k, "a/b", Conc("S", <<>>))>>, R(Root, A1, k, "a~1b", st), k)],
     [shape |-> "crossdoc_local",   \* root#A -> a.json#V -> root#B -> (local) root#C, while a.json has a C of its own
@@ -250,6 +258,7 @@ QuickSlice(sh, st, e, pos) ==
    \/ (sh.shape \in {"collection", "collection_local"} /\ st = "plain" /\ e \in {"file_abs", "data"})
    \/ (pos = "op2" /\ st = "plain" /\ e = "file_abs")
    \/ (sh.shape \in {"selfcycle", "selfcycle_root", "mutualcycle"} /\ sh.u.use.kind = "callbacks" /\ st = "plain" /\ e \in {"file_abs", "data"})
+   \/ (sh.shape \in {"escaped_local", "escaped_pct"} /\ st = "plain" /\ e \in {"file_abs", "data"})
    \/ (sh.shape \in {"pathfragment", "pathfragment_ext"} /\ st = "plain" /\ e \in {"file_abs", "data"})
    \/ (sh.shape = "pi_local" /\ st = "plain" /\ e \in {"file_abs", "data"})
    \/ (sh.shape = "childdangling_whole" /\ st = "plain" /\ e \in {"file_abs", "file_rel"} /\ pos = "op")
